@@ -20,8 +20,6 @@ TEXT = {
    text='Seeded workloads over generated order-dependent transaction semantics; client calls are parked at the gchan hook so the buffer goroutine sees requests in seed-chosen order; the invoke/return history must linearize against the sequential pending-list model.',
    note='Trusts porcupine and the sequential model; the apply function returns a poisoned state next to every error so that misuse of an error result is visible.',
    ref='4/C19'),
-}
-
  'C12': dict(
    technique='deterministic simulation: real StandardRoundTimer on a fake clock, seeded statement-level interleaving of its goroutine with a caller issuing start/cancel/restart sequences',
    text='Part (b) of the property (production round timer): seeded search over caller scripts and over every interleaving point of the timer goroutine (selects with seeded pre-pass, yields between statements) on the synctest fake clock; oracle: no panic, cancelled never elapses, never early, every start returns, armed timers fire. Part (a) (state-machine timer discipline) is decided by the state-machine harness when present in harness.json.',
